@@ -83,7 +83,7 @@ func main() {
 		seed, _ := strconv.ParseUint(os.Args[2], 10, 64)
 		g, _ := strconv.Atoi(os.Args[3])
 		it, _ := strconv.Atoi(os.Args[4])
-		os.Exit(props.C16Load(seed, g, it, os.Args[5]))
+		os.Exit(props.C16Load(seed, g, it, os.Args[5], len(os.Args) > 6 && os.Args[6] == "true"))
 	case "replay":
 		p := props.Registry[os.Args[2]]
 		if p == nil {
